@@ -28,6 +28,7 @@ MAP = [
  ("empty interpreter list does not emit an empty PROG tag", [("C09", "Scriptlet::prog(vec![]) emitted a header entry with count 0")]),
  ("destinations without a directory or file name part are rejected", [("C17", "destinations such as './', '/usr/..', './..' panicked on unwrap")]),
  ("an xz compression level the encoder refuses is an error", [("C17", "CompressionWithLevel::Xz(10) panicked inside liblzma")]),
+ ("a gzip compression level above 9 is an error", [("C17", "CompressionWithLevel::Gzip(level > 10) panicked in flate2 (debug assertion) when the package was built")]),
  ("signature_key_ids checks the issuer count of each signature", [("C10", "signature_key_ids failed on every package signed by this library (tested the accumulated list instead of the new ids)")]),
  ("user and group recommends in a stable order", [("C11", "user()/group() recommends emitted in hash-set iteration order: rebuilds of the same configuration differed")]),
  ("write_all for the index entries", [("C14", "index entries written with write() instead of write_all(): short writes were dropped (truncated output reported as success)")]),
